@@ -1,5 +1,6 @@
 import Drv.Sync
 import Drv.Retrieve
+import Drv.Submit
 import Model.FullNode
 
 /-! Driver for the full-node stream `FNODE` (C02, C05): a proposer chain built by the producer model, its parts
@@ -68,6 +69,18 @@ def showHead (st : Store) (h : Nat) : String :=
   | none => "none"
   | some b => s!"{Drv.Prod.showSH b.sh} txs={hexList b.data.txs} ssig={Drv.Prod.sigClass b.sh.hdr b.savedSig}"
 
+def metaNat (st : Store) (k : String) : Nat :=
+  match st.getMeta k with
+  | some b => if b.length = 8 then Bytes.unLe b else 0
+  | none => 0
+
+/-- DA-included height (memory / persisted), `SetFinal` calls since the last start, recorded DA heights -/
+def showInc (c : FullNode.Cfg) (h : FullNode.HSt) : String :=
+  let st := h.nd.full.store
+  let ks := (List.range (h.daInc + 1 - c.sync.initialHeight)).map (· + c.sync.initialHeight)
+  let rhb := ks.map fun k => s!"{k}:{metaNat st (Submit.rhbKey k "h")}:{metaNat st (Submit.rhbKey k "d")}"
+  s!"dainc={h.daInc}/{metaNat st Submit.daIncKey} fin={natList h.finals.reverse} rhb={if rhb.isEmpty then "-" else String.intercalate "," rhb}"
+
 def observe (c : FullNode.Cfg) (nd : FullNode.Node) (ws : List SW) : String :=
   let n := nd.full
   let h := n.store.height
@@ -76,7 +89,21 @@ def observe (c : FullNode.Cfg) (nd : FullNode.Node) (ws : List SW) : String :=
 
 /-- observation after a (re)start -/
 def startObs (s : St) : String :=
-  if s.h.ok then "start " ++ observe s.cfg s.h.nd s.h.ws else "start err"
+  if s.h.ok then "start " ++ observe s.cfg s.h.nd s.h.ws ++ " " ++ showInc s.cfg s.h else "start err"
+
+/-- the event the P2P store loops hand over for a part of the proposer's chain -/
+def p2pEvent (s : St) (tok : String) : Option Retrieve.Event :=
+  let blk := fun (rest : String) =>
+    match rest.toNat? with
+    | none => none
+    | some k => if k > s.prod.store.height then none else s.prod.store.getBlock k
+  if tok.startsWith "H" then
+    (blk ((tok.drop 1).toString)).map fun b =>
+      .hdr { header := b.sh.hdr, signature := [1], signer := { address := b.sh.signer.addr, pubKey := s.pk } } s.h.nd.cursor
+  else if tok.startsWith "D" then
+    (blk ((tok.drop 1).toString)).map fun b =>
+      .dat { data := b.data, signature := [1], signer := { address := s.cfg.sync.proposerAddr, pubKey := s.pk } } s.h.nd.cursor
+  else none
 
 /-- every operation on the node / the DA layer goes through `FullNode.hstep` -/
 def hop (s : St) (o : FullNode.HOp) : St := { s with h := FullNode.hstep s.cfg s.h o }
@@ -121,7 +148,14 @@ def step (s : St) (line : String) : St × String :=
   | "run" =>
     if !s.h.ok then (s, "dead") else
     let s1 := hop s .run
-    (s1, "run " ++ observe s1.cfg s1.h.nd s1.h.ws)
+    (s1, "run " ++ observe s1.cfg s1.h.nd s1.h.ws ++ " " ++ showInc s1.cfg s1.h)
+  | "p2p" =>
+    if !s.h.ok then (s, "dead") else
+    let toks := if o.str "items" = "" || o.str "items" = "-" then [] else (o.str "items").splitOn ","
+    let evs := toks.filterMap (p2pEvent s)
+    let shown := toks.map fun t => if (p2pEvent s t).isSome then t else s!"{t}:none"
+    let s1 := hop s (.p2p evs)
+    (s1, s!"p2p {if shown.isEmpty then "-" else String.intercalate "," shown} " ++ observe s1.cfg s1.h.nd s1.h.ws ++ " " ++ showInc s1.cfg s1.h)
   | "restart" =>
     if !s.h.ok then (s, "dead") else
     let s1 := hop s .restart
@@ -138,7 +172,7 @@ def step (s : St) (line : String) : St × String :=
   | "show" =>
     if !s.h.ok then (s, "dead") else
     let n := s.h.nd.full
-    (s, s!"show height={n.store.height} cursor={s.h.nd.cursor} hc={natList (Drv.Syn.sortNats (n.hdrCache.map (·.1)))} dc={natList (Drv.Syn.sortNats (n.datCache.map (·.1)))} seenH={Drv.Syn.shortHashes n.seenH} seenD={Drv.Syn.shortHashes n.seenD}")
+    (s, s!"show height={n.store.height} cursor={s.h.nd.cursor} hc={natList (Drv.Syn.sortNats (n.hdrCache.map (·.1)))} dc={natList (Drv.Syn.sortNats (n.datCache.map (·.1)))} seenH={Drv.Syn.shortHashes n.seenH} seenD={Drv.Syn.shortHashes n.seenD} hm={Drv.Sub.showMarks s.h.hMarks} dm={Drv.Sub.showMarks s.h.dMarks}")
   | _ => (s, "bad-op")
 
 end Drv.FN
